@@ -22,6 +22,7 @@ import (
 	"errors"
 	"fmt"
 	"os"
+	"runtime/debug"
 	"sync"
 	"sync/atomic"
 	"testing"
@@ -484,7 +485,24 @@ func (sc *v16Scn) probe(k int, before *v16Obs) {
 			sc.failLocked("C16:getstream-failed-on-live-pool", fmt.Sprintf("pool %d: %v", k, err))
 		}
 	}
-	sc.hist = append(sc.hist, v16Ev{K: "gs", I: k, Ok: err == nil, T: sc.ms()})
+	// the probe carries the snapshot taken after it, so that the model is compared with the bookkeeping at
+	// every probe (every ~16 ms), not only at transitions; if something moved during the probe the next
+	// observe() reports it and this probe is dropped from the history
+	if len(sc.infer(before, after)) != 0 || after.LState != before.LState || after.LAck != before.LAck ||
+		after.MState != before.MState || after.MEpoch != before.MEpoch || after.LEpoch != before.LEpoch {
+		return
+	}
+	for i := range after.poolSess {
+		if after.poolSess[i] != before.poolSess[i] || after.resSess[i] != before.resSess[i] {
+			return
+		}
+	}
+	for i := range after.LSess {
+		if after.LSess[i] != before.LSess[i] {
+			return
+		}
+	}
+	sc.hist = append(sc.hist, v16Ev{K: "gs", I: k, Ok: err == nil, T: sc.ms(), Obs: after})
 }
 
 func (sc *v16Scn) startTraffic(workers int) {
@@ -849,6 +867,132 @@ func v16Happy(name string, n int, seed uint64, epoch uint64, twice bool) v16Case
 	return sc.result()
 }
 
+// A completed hand-over with an old server that keeps running (draining) for longer than the checkers'
+// time-out: the old sessions must stay usable until the old server lets go.  A long-lived stream opened
+// on an old session before the restart does round trips during the drain (answered by the old server),
+// fresh GetStream streams are answered by the new server, the parked pools stay parked and alive.
+func v16Drain(name string, n int, seed uint64, epoch uint64, extra time.Duration) v16Case {
+	sc, err := v16NewScn(name, n, seed, 60*time.Second)
+	if err != nil {
+		return v16Case{ID: name, N: n, Oracle: []string{"C16:harness-setup | " + err.Error()}, SkipModel: true}
+	}
+	sc.feat["all-delivered"], sc.feat["old-server-drains-past-timeout"] = true, true
+	sc.feat[fmt.Sprintf("sessions-%d", n)] = true
+	sc.startSampler()
+	sc.startTraffic(1)
+	// the long-lived stream on an old session
+	victim := int(seed % uint64(n))
+	sc.sm.RLock()
+	oldPool := sc.sm.pools[victim]
+	sc.sm.RUnlock()
+	oldSess := oldPool.Session()
+	oldStream, err := oldSess.OpenStream()
+	if err != nil {
+		sc.fail("C16:harness-setup", "OpenStream on the old session: "+err.Error())
+	}
+	rt := func(tag string, k int) (rerr error) {
+		// a stream of a session that was closed under it may touch unmapped shared memory
+		defer debug.SetPanicOnFault(debug.SetPanicOnFault(true))
+		defer func() {
+			if p := recover(); p != nil {
+				rerr = fmt.Errorf("fault while using the stream: %v", p)
+			}
+		}()
+		msg := fmt.Sprintf("drain-%s-%d", tag, k)
+		if err := oldStream.BufferWriter().WriteString(msg); err != nil {
+			return err
+		}
+		if err := oldStream.Flush(false); err != nil {
+			return err
+		}
+		_ = oldStream.SetReadDeadline(time.Now().Add(2 * time.Second))
+		got, err := oldStream.BufferReader().ReadString(len(msg))
+		if err != nil {
+			return err
+		}
+		if got != msg {
+			return fmt.Errorf("echo mismatch %q", got)
+		}
+		oldStream.ReleaseReadAndReuse()
+		return nil
+	}
+	if oldStream != nil {
+		if err := rt("before", 0); err != nil {
+			sc.fail("C16:harness-setup", "round trip before the restart: "+err.Error())
+		}
+	}
+	time.Sleep(time.Duration(40+sc.rng.intn(60)) * time.Millisecond)
+	if sc.newL, err = v16NewListener(sc.path); err != nil {
+		sc.fail("C16:harness-setup", err.Error())
+	}
+	t0 := time.Now()
+	if code := sc.hotRestart(epoch); code != 0 {
+		sc.fail("C16:hot-restart-call-failed", fmt.Sprintf("HotRestart returned class %d", code))
+	}
+	completed := false
+	if sc.checkExit("first") {
+		sc.checkCompleted("first", epoch)
+		sc.mu.Lock()
+		completed = len(sc.oracle) == 0
+		sc.mu.Unlock()
+	}
+	// the old server drains: longer than the checkers' time-out, counted from the completed hand-over
+	tDone := time.Now()
+	hold := hotRestartCheckTimeout + extra
+	sc.setStat("drain_ms", int64(hold/time.Millisecond))
+	k := 0
+	reported := map[string]bool{}
+	once := func(sig, what string) {
+		if !reported[sig] {
+			reported[sig] = true
+			sc.fail(sig, what)
+		}
+	}
+	for completed && time.Since(tDone) < hold {
+		k++
+		at := time.Since(t0).Round(time.Millisecond)
+		if oldSess.IsClosed() {
+			once("C16:parked-session-closed-before-old-server-let-go", fmt.Sprintf("%v after HotRestart (hand-over completed, old server still running) the client has closed its old session of pool %d", at, victim))
+			oldStream = nil // its shared memory is being unmapped
+		}
+		if oldStream != nil {
+			if err := rt("during", k); err != nil {
+				once("C16:old-session-unusable-before-old-server-let-go", fmt.Sprintf("%v after HotRestart (hand-over completed, old server still running): round trip on a stream of old session of pool %d failed: %v", at, victim, err))
+				oldStream = nil
+			}
+		}
+		o := sc.peek()
+		for i := range o.Pools {
+			if o.Reserve[i] == nil {
+				once("C16:reserve-pools-dropped-after-completed-hand-over", fmt.Sprintf("%v after HotRestart: pool %d has no parked pool any more although the old server has not let go", at, i))
+			} else if o.Reserve[i][1] != 1 {
+				once("C16:parked-session-closed-before-old-server-let-go", fmt.Sprintf("%v after HotRestart: parked session of pool %d is closed although the old server has not let go", at, i))
+			}
+			if o.Pools[i][0] != int64(epoch) || o.Pools[i][1] != 1 {
+				once("C16:pool-lost-during-drain", fmt.Sprintf("%v after HotRestart: pool %d epoch %d alive %d", at, i, o.Pools[i][0], o.Pools[i][1]))
+			}
+		}
+		if o.MState != int64(defaultState) || o.LState != int64(hotRestartDoneState) {
+			once("C16:state-changed-after-completed-hand-over", fmt.Sprintf("%v after HotRestart: listener %d manager %d", at, o.LState, o.MState))
+		}
+		time.Sleep(100 * time.Millisecond)
+	}
+	sc.setStat("drain_round_trips", int64(k))
+	if oldStream != nil && !oldSess.IsClosed() {
+		oldStream.Close()
+	}
+	sc.closeOldAndSettle()
+	o := sc.peek()
+	for i := range o.Pools {
+		if o.Pools[i][1] != 1 || o.Pools[i][0] != int64(epoch) {
+			sc.fail("C16:pool-lost-after-old-server-exit", fmt.Sprintf("pool %d epoch %d alive %d", i, o.Pools[i][0], o.Pools[i][1]))
+		}
+	}
+	sc.stopAll()
+	sc.checkTrafficClean("drain")
+	return sc.result()
+}
+
 // the new server is not there (socket path gone): every dial fails, both sides time out; a second
 // HotRestart call while in progress; a stale HotRestart event and a stale ack in the middle; then the
 // new server appears and a second hand-over completes.
@@ -1086,6 +1230,12 @@ func TestVerif_C16(t *testing.T) {
 			func(e uint64, n int) job { return func() v16Case { return v16DialFail(tag("dialfail"), n, rs+5, e) } }(ep(), 2+rng.intn(2)),
 			func(e uint64, v int) job { return func() v16Case { return v16KillMid(tag("killmid"), 3, rs+6, e, v) } }(ep(), rng.intn(3)),
 			func(e uint64) job { return func() v16Case { return v16LateAck(tag("lateack"), 2, rs+7, e) } }(ep()),
+			func(e uint64, x int) job {
+				return func() v16Case { return v16Drain(tag("drain1"), 1, rs+9, e, time.Duration(500+x)*time.Millisecond) }
+			}(ep(), rng.intn(500)),
+			func(e uint64, x int) job {
+				return func() v16Case { return v16Drain(tag("drain3"), 3, rs+10, e, time.Duration(1000+x)*time.Millisecond) }
+			}(ep(), rng.intn(500)),
 		}
 		if r == 0 {
 			jobs = append(jobs, func() v16Case { return v16EarlyReturn(tag("earlyreturn"), rs+8) })
